@@ -449,14 +449,26 @@ func RequestObjectCase(c *Case) M {
 	object := h64 + "." + p64 + "." + b64.EncodeToString(sig)
 	out := M{}
 	for _, router := range []string{"P", "L"} {
-		q := url.Values{"client_id": {"A"}, "redirect_uri": {assertURI}, "response_type": {"code"}, "scope": {"openid profile"},
+		queryURI := assertURI
+		if S(o, "quri") == "unregistered" {
+			queryURI = "https://attacker.example.test/cb-from-query"
+		}
+		q := url.Values{"client_id": {"A"}, "redirect_uri": {queryURI}, "response_type": {"code"}, "scope": {"openid profile"},
 			"state": {"q-state"}, "nonce": {"q-nonce"}, "code_challenge": {"query-challenge-0123456789abcdefghijklmnopqrstuvwxyz012"}, "code_challenge_method": {"S256"},
 			"request": {object}}
 		r := opdrv.Serve(w.h[router], httptest.NewRequest(http.MethodGet, opdrv.Issuer+"/authorize?"+q.Encode(), nil))
-		res := M{"class": "refused", "src": "none", "uri": "none", "status": r.Status}
+		res := M{"class": "refused", "src": "none", "uri": "none", "errTarget": "none", "status": r.Status}
 		switch {
 		case r.Panic != "":
 			res["class"], res["detail"] = "panic", r.Panic
+		case r.Status >= 300 && r.Status < 400 && !strings.HasPrefix(r.Location, "/login?authRequestID="):
+			// the request is refused with a redirect: where to?
+			base, _, _ := strings.Cut(strings.SplitN(r.Location, "#", 2)[0], "?")
+			if base == assertURI || base == assertURI2 {
+				res["errTarget"] = "registered"
+			} else {
+				res["errTarget"], res["location"] = "unregistered", r.Location
+			}
 		case r.Status == http.StatusFound && strings.HasPrefix(r.Location, "/login?authRequestID="):
 			id := strings.TrimPrefix(r.Location, "/login?authRequestID=")
 			res["class"] = "login"
@@ -467,6 +479,8 @@ func RequestObjectCase(c *Case) M {
 					res["uri"] = "query"
 				case assertURI2:
 					res["uri"] = "objRegistered"
+				case "https://attacker.example.test/cb-from-query":
+					res["uri"] = "queryUnregistered"
 				default:
 					res["uri"] = "objUnregistered"
 				}
